@@ -67,9 +67,9 @@ macro_rules! c09_pair {
 }
 //@ prop=C09,C20 tier=quick mem=4 timeout=2400 inst="ArrayView2<i32> 2x3, a C-order vs b F-order" bounds="all i8-range payloads; unwind 10" cbmc="--unwindset memcmp.0:33"
 c09_pair!(c09_dev_i32_2x3_c_f, 2, 3, 6, 0, 1, 10);
-//@ prop=C09,C20 tier=quick mem=4 timeout=2400 inst="ArrayView2<i32> 2x3, a stepped (5x7 parent) vs b both axes reversed" bounds="all i8-range payloads; unwind 10" cbmc="--unwindset memcmp.0:33"
+//@ prop=C09,C20:thorough tier=quick mem=4 timeout=2400 inst="ArrayView2<i32> 2x3, a stepped (5x7 parent) vs b both axes reversed" bounds="all i8-range payloads; unwind 10" cbmc="--unwindset memcmp.0:33"
 c09_pair!(c09_dev_i32_2x3_step_rev, 2, 3, 6, 2, 3, 10);
-//@ prop=C09,C20 tier=quick mem=4 timeout=2400 inst="ArrayView2<i32> 2x2, a F-order vs b F-order rows reversed" bounds="all i8-range payloads; unwind 8" cbmc="--unwindset memcmp.0:33"
+//@ prop=C09,C20:thorough tier=quick mem=4 timeout=2400 inst="ArrayView2<i32> 2x2, a F-order vs b F-order rows reversed" bounds="all i8-range payloads; unwind 8" cbmc="--unwindset memcmp.0:33"
 c09_pair!(c09_dev_i32_2x2_f_frev, 2, 2, 4, 1, 4, 8);
 //@ prop=C09,C20 tier=thorough mem=4 timeout=3600 inst="ArrayView2<i32> 3x2, a F-order vs b stepped" bounds="all i8-range payloads; unwind 10" cbmc="--unwindset memcmp.0:33"
 c09_pair!(c09_dev_i32_3x2_f_step, 3, 2, 6, 1, 2, 10);
@@ -122,7 +122,7 @@ fn c09_float_forms_i32_l3() {
 }
 
 /// Ownership kinds: shared (ArcArray) vs copy-on-write view vs owned, 1-D, i64 payloads from i16.
-//@ prop=C09,C20 tier=quick mem=4 timeout=1800 inst="ArcArray1<i64> vs CowArray<i64> (view of a reversed stride-2 lane) vs Array1" bounds="len 3, i16-range payloads; unwind 8" cbmc="--unwindset memcmp.0:33"
+//@ prop=C09,C20:thorough tier=quick mem=4 timeout=1800 inst="ArcArray1<i64> vs CowArray<i64> (view of a reversed stride-2 lane) vs Array1" bounds="len 3, i16-range payloads; unwind 8" cbmc="--unwindset memcmp.0:33"
 #[kani::proof]
 #[kani::unwind(8)]
 fn c09_deviation_ownership_i64() {
@@ -168,7 +168,7 @@ fn c09_deviation_ownership_i64() {
 
 /// f32 with small-integer payloads (every partial sum exact): exact results expected; and with
 /// unconstrained finite values: exact symmetry of linf_dist / count_eq (no rounding involved).
-//@ prop=C09,C20 tier=quick mem=6 timeout=2400 inst="ArrayView2<f32> 2x2, a stepped, b reversed" bounds="payloads: integers in -8..=7 (exact sums); unwind 8" cbmc="--unwindset memcmp.0:33"
+//@ prop=C09,C20:thorough tier=quick mem=6 timeout=2400 inst="ArrayView2<f32> 2x2, a stepped, b reversed" bounds="payloads: integers in -8..=7 (exact sums); unwind 8" cbmc="--unwindset memcmp.0:33"
 #[kani::proof]
 #[kani::unwind(8)]
 fn c09_deviation_f32_small_2x2() {
